@@ -507,4 +507,57 @@ def rule_cwd(ctx):
            construct=f"user:cwd reset:{extra[:1]}")
 
 
-RULES = [rule_one_end, rule_wrappers, rule_seq, rule_arg, rule_rest, rule_codes, rule_cwd]
+def rule_rename(ctx):
+    p = ctx.p
+    ctx.rule("C05.RENAME", "pending-rename typestate: RNFR sets it, RNTO requires it (guard), consumes it and forgets it on every path before the backend is asked; nothing else touches it")
+    table, _ = p.command_table()
+    fields = field_names(p)
+    rf = fields.get("rename_from_required")
+    if rf is None or "rnto" not in table or "rnfr" not in table:
+        raise AnalysisError("anchor=rename_from_required guard field / RNFR / RNTO handlers not found")
+    rnto = p.method("Server", table["rnto"])
+    rnfr = p.method("Server", table["rnfr"])
+    conn, _r = p.handler_params(rnto)
+    guarded = any(is_guard(d, rf) for d in p.decorators(rnto))
+    ctx.ob("C05.RENAME", rnto, "RNTO is guarded by rename_from_required (503 without a preceding RNFR)", guarded, "RNTO is not guarded by rename_from_required", construct="rnto:guard")
+    methods = p.methods("Server")
+
+    def forgets(n):
+        """statement deletes the field, directly or through a helper method that does"""
+        if isinstance(n, ast.Delete) and any(isinstance(t, ast.Attribute) and t.attr == rf for t in n.targets):
+            return True
+        for c_ in walk_self(n):
+            if is_self_call(c_) and c_.func.attr in methods and c_.func.attr not in table.values():
+                if any(isinstance(x, ast.Delete) and any(isinstance(t, ast.Attribute) and t.attr == rf for t in x.targets) for x in ast.walk(methods[c_.func.attr])):
+                    return True
+        return False
+    ok = True
+    n_paths = 0
+    for ev, out in enum_paths(p, rnto):
+        if out[0] in ("cut",):
+            continue
+        n_paths += 1
+        forgot = False
+        for n in evaluated(ev):
+            if isinstance(n, FuncT):
+                continue
+            if forgets(n):
+                forgot = True
+            if any(isinstance(c_, ast.Call) and is_method_call(c_, "rename", "path_io") for c_ in walk_self(n)) and not forgot:
+                ok = False
+        if out[0] in ("return", "fall") and not forgot:
+            ok = False
+    ctx.ob("C05.RENAME", rnto, f"RNTO forgets the pending rename on each of its {n_paths} paths, before asking the backend", ok and n_paths > 0,
+           "RNTO does not forget the pending rename on every path before it asks the backend: one RNFR would serve several RNTOs (or survive a failed one)", construct="rnto:forget")
+    sets = [s for s, t in attr_stores(rnfr, rf, nested=False) if isinstance(s, ast.Assign)]
+    ctx.ob("C05.RENAME", rnfr, "RNFR records the pending rename", len(sets) == 1, "RNFR does not record the pending rename exactly once", construct="rnfr:set")
+    for name, m in methods.items():
+        if m in (rnto, rnfr) or name == p.dispatcher().name:
+            continue
+        touched = [s for s, t in attr_stores(m, rf)]
+        helper_of_rnto = any(is_self_call(c_, {name}) for c_ in ast.walk(rnto))
+        if touched and not helper_of_rnto:
+            ctx.fail("C05.RENAME", touched[0], f"{name} changes the pending rename", construct=f"{name}:touches {rf}")
+
+
+RULES = [rule_one_end, rule_wrappers, rule_seq, rule_arg, rule_rest, rule_codes, rule_cwd, rule_rename]
